@@ -26,7 +26,8 @@ class Gen:
         c = r.random()
         if depth > 2 or c < 0.3:
             return r.choice(("0", "1", "2", "10", "255", "3.5", "&HFF", "100", "7", "&H10", "&HB", "&H100",
-                             "16", "11", "256"))
+                             "16", "11", "256", "1.5E3", "1E5", "2.5E-3", "1234567890.25", "0.123456789012",
+                             "123456789012", ".5", "1E+2"))
         if c < 0.55:
             return r.choice(NUM_NAMES)
         if c < 0.65:
@@ -327,8 +328,24 @@ class Gen:
         return "DIM " + ",".join(items)
 
     # ---- whole program
+    def deep_program(self):
+        """One assignment whose right-hand side is nested far beyond what the bounded
+        expression generator reaches (recursion-depth territory of the PEG parser)."""
+        r = self.r
+        n = r.choice((40, 120, 170, 200, 230, 260, 320))
+        kind = r.random()
+        if kind < 0.5:
+            e = "(" * n + "1" + ")" * n
+        elif kind < 0.8:
+            e = "ABS(" * n + "X" + ")" * n
+        else:
+            e = "1" + "+(1" * n + ")" * n
+        return "10 A=%s\n" % e
+
     def program(self, flavour=None, refuse=None):
         r = self.r
+        if flavour is None and refuse is None and r.random() < 0.05:
+            return self.deep_program()
         flavour = flavour or r.choice(("arrays", "strings", "devices", "jumps", "data", "mixed", "mixed"))
         # DATA-heavy programs come with and without empty items (an empty item switches on a
         # rewriting pass over every DATA literal of the program)
